@@ -22,11 +22,17 @@ type Out struct {
 	Terminal bool
 	W, H     int
 	OnWrite  func(p []byte)
+	// Limit > 0: stop storing once Buf holds Limit bytes (Total still counts everything written)
+	Limit int
+	Total int64
 }
 
 func (o *Out) Write(p []byte) (int, error) {
 	o.mu.Lock()
-	o.Buf.Write(p)
+	o.Total += int64(len(p))
+	if o.Limit <= 0 || o.Buf.Len() < o.Limit {
+		o.Buf.Write(p)
+	}
 	cb := o.OnWrite
 	o.mu.Unlock()
 	if cb != nil {
@@ -40,6 +46,11 @@ func (o *Out) String() string {
 	o.mu.Lock()
 	defer o.mu.Unlock()
 	return o.Buf.String()
+}
+func (o *Out) TotalWritten() int64 {
+	o.mu.Lock()
+	defer o.mu.Unlock()
+	return o.Total
 }
 func (o *Out) Bytes() []byte {
 	o.mu.Lock()
